@@ -93,6 +93,11 @@ def body(run):
         if not run.thorough:
             # baseline, the numeric-nodata / first alternative, and one more drawn at random
             vs = vs[:2] + [rng.choice(vs[2:])] if dtype == 'float32' else [vs[0], rng.choice(vs[1:3]), rng.choice(vs[3:])]
+        # a float64 image whose nodata value is the float64 minimum (what several packages write): out of float32 range, it reads as -inf on the
+        # float32 side.  Only for the image that stays on its own grid (GDAL refuses such a nodata value for the re-projected one - an error, not a result)
+        stays = 'ref' if (proc == 'ref' or (proc == 'auto' and g.ratio >= 1)) else 'src'
+        if dtype == 'float32' and which == stays and k % 2 == 0 and not (mc or {}).get('mask_partial'):
+            vs = list(vs) + [('float64,nodata=float64 min', dict(encoding='nodata', nodata=-1.7976931348623157e308, dtype='float64'))]
         unworkable = False
         for name, kw in vs:
             skw = kw if which == 'src' else (dict(encoding='nan') if dtype == 'float32' else dict(encoding='nodata', nodata=0, dtype='uint8'))
